@@ -11,7 +11,9 @@ Steps (see coq/C16/NOTES.md):
  4. direct search oracle: the property itself, stated in Python with exact
     rationals (two-pass mean / variance over the multiset of all accumulated feature
     vectors), plus metamorphic re-accumulation of the same vectors in other splits,
-    orders, axes, dtypes and vector/tensor forms.
+    orders, axes, dtypes and vector/tensor forms; histories over several instances
+    whose statistics are LOADED from files (several instances from one file, files
+    saved again under the same name, further accumulation on loaded instances).
 """
 
 import math
@@ -735,6 +737,191 @@ def exhaustive_small(ctx, post):
 
 
 # --------------------------------------------------------------------------
+# statistics LOADED from a file: several instances, files saved / re-saved / loaded again
+
+
+# (extension, keyword arguments of the constructor, keyword arguments of save)
+FILE_FORMS = [
+    ("npy", {}, {}),
+    ("npy", {}, {}),
+    ("npz", {}, {}),
+    ("npz", {"key": "stats"}, {"key": "stats"}),
+    ("npz", {}, {"compress": True}),
+    ("bin", {"force_as": "file"}, {}),
+]
+FILE_DIR = os.path.join(C.ROOT, "build", PID, "stats_files", "p%d" % os.getpid())  # (concurrent runs do not share files)
+
+
+def file_path(case, f):
+    return os.path.join(FILE_DIR, "%s_f%d.%s" % (case["tag"], f, FILE_FORMS[case["form"]][0]))
+
+
+def write_stats(np, path, form, vectors):
+    """The sufficient statistics of ``vectors`` (Fractions), written by NumPy itself in the layout
+    Standardize.save documents; False when they are not exactly representable in float64."""
+    F = len(vectors[0])
+    m = [[sum(v[f] for v in vectors) for f in range(F)] + [Fraction(len(vectors))],
+         [sum(v[f] ** 2 for v in vectors) for f in range(F)] + [Fraction(0)]]
+    if any(Fraction(float(x)) != x for row in m for x in row):
+        return False
+    arr = np.array([[float(x) for x in row] for row in m], dtype=np.float64)
+    ext, _, skw = FILE_FORMS[form]
+    if ext == "npy":
+        np.save(path, arr)
+    elif ext == "npz":
+        (np.savez_compressed if skw.get("compress") else np.savez)(path, **{skw.get("key", "arr_0"): arr})
+    else:
+        arr.tofile(path)
+    return True
+
+
+def gen_file_history(ctx, r, tag):
+    """A history over SEVERAL Standardize instances and statistics files: instances accumulate, save
+    to a file, other instances are constructed from that file (possibly several from one file, possibly
+    after the file was saved again under the same name), accumulate further, and apply."""
+    F = r.choice([1, 2, 3, 4])
+    dtype = r.choice(["float64", "float64", "float32", "int16", "int32", "uint8"])
+    prof = Profile(r, F, dtype, kind=r.choice(["small", "negmean", "wide", "dyadic" if DTYPES[dtype][0] == "f" else "small"]))
+    scen = r.choice(["shared-accumulate", "resave", "random"])
+    case = dict(kind="loaded", tag=tag, norm_var=r.random() < 0.7, form=r.randrange(len(FILE_FORMS)), scenario=scen,
+                profile="loaded:" + prof.kind)
+    ops = []
+
+    def acc(i):
+        for _ in range(r.choice([1, 1, 2])):
+            ops.append(dict(gen_acc(ctx, r, prof), inst=i))
+
+    def app(i):
+        o = gen_app(ctx, r, prof)
+        ops.append(dict(o, inst=i, in_place=False))
+
+    def put(i, f):
+        """file f := the statistics of instance i, by its own save() or (same numbers) by NumPy."""
+        ops.append(dict(op="save", inst=i, file=f, by=r.choice(["save", "save", "numpy"])))
+
+    ops.append(dict(op="new", inst=0))
+    acc(0)
+    put(0, 0)
+    if scen == "shared-accumulate":
+        # two instances constructed from one file; one accumulates more: the other still has the file's statistics
+        ops += [dict(op="load", inst=1, file=0), dict(op="load", inst=2, file=0)]
+        if r.random() < 0.5:
+            app(1)
+        acc(r.choice([1, 2]))
+        app(2)
+        app(1)
+        ops.append(dict(op="load", inst=3, file=0))
+        app(3)
+    elif scen == "resave":
+        # the file is written again, with other statistics, under the same name, and loaded again
+        ops.append(dict(op="load", inst=1, file=0))
+        if r.random() < 0.7:
+            app(1)
+        if r.random() < 0.5:
+            acc(0)
+            put(0, 0)
+        else:
+            ops.append(dict(op="new", inst=3))
+            acc(3)
+            put(3, 0)
+        ops.append(dict(op="load", inst=2, file=0))
+        app(2)
+        app(1)
+    else:
+        have, files, nxt = {0}, {0}, 1
+        for _ in range(r.randint(4, 10)):
+            u = r.random()
+            if u < 0.3:
+                ops.append(dict(op="load", inst=nxt, file=r.choice(sorted(files))))
+                have.add(nxt)
+                nxt += 1
+            elif u < 0.5:
+                acc(r.choice(sorted(have)))
+            elif u < 0.65:
+                f = r.choice([0, 1])
+                put(r.choice(sorted(have)), f)
+                files.add(f)
+            else:
+                app(r.choice(sorted(have)))
+        app(r.choice(sorted(have)))
+    case["ops"] = ops
+    return case
+
+
+def file_history_check(post, case):
+    """Run a file history on the implementation, next to the exact reference (per instance: the
+    multiset of feature vectors behind the file it was constructed from plus those it accumulated
+    itself).  -> list of (what, detail)."""
+    np = np_()
+    os.makedirs(FILE_DIR, exist_ok=True)
+    ext, lkw, skw = FILE_FORMS[case["form"]]
+    insts, refs, files, bad, paths = {}, {}, {}, [], set()
+    with warnings.catch_warnings():
+        warnings.simplefilter("ignore")
+        try:
+            for i, o in enumerate(case["ops"]):
+                k = o.get("inst")
+                if o["op"] == "new":
+                    insts[k], refs[k] = post.Standardize(norm_var=case["norm_var"]), Ref(case["norm_var"])
+                elif o["op"] == "acc":
+                    insts[k].accumulate(to_array(o["t"]), axis=o["axis"])
+                    refs[k].accumulate(o["t"], o["axis"])
+                elif o["op"] == "save":
+                    path = file_path(case, o["file"])
+                    paths.add(path)
+                    files[o["file"]] = (list(refs[k].vectors), refs[k].F)
+                    if o["by"] != "numpy" or not write_stats(np, path, case["form"], refs[k].vectors):
+                        insts[k].save(path, **skw)
+                elif o["op"] == "load":
+                    insts[k] = post.Standardize(file_path(case, o["file"]), norm_var=case["norm_var"], **lkw)
+                    refs[k] = Ref(case["norm_var"])
+                    refs[k].vectors, refs[k].F = list(files[o["file"]][0]), files[o["file"]][1]
+                else:
+                    x = to_array(o["t"])
+                    y = insts[k].apply(x, axis=o["axis"])
+                    exp = refs[k].expected_apply(o["t"], o["axis"])
+                    if exp is None or exp[0] != "vals":
+                        continue
+                    vals = [float(v) for v in np.asarray(y, dtype=np.float64).reshape(-1)]
+                    if list(y.shape) != o["t"]["shape"] or str(y.dtype) != "float64":
+                        bad.append(("apply result shape / dtype", dict(op_index=i, shape=list(y.shape), dtype=str(y.dtype))))
+                        continue
+                    for j, (a, et) in enumerate(zip(vals, exp[1])):
+                        if et is not None and not close(a, et[0], et[1]):
+                            bad.append(("apply value differs from (x - mean)/std of the statistics this instance was given "
+                                        "(those in the file when it was constructed plus its own accumulations)",
+                                        dict(op_index=i, instance=k, element=j, got=a, expected=et[0], tol=et[1],
+                                             n_vectors=len(refs[k].vectors))))
+                            break
+        except Exception as e:  # noqa: BLE001 - every call of these histories is valid
+            bad.append(("a valid call raised %s: %s" % (type(e).__name__, e), dict(op_index=i, op=o["op"])))
+        finally:
+            for pth in paths:
+                if os.path.exists(pth):
+                    os.remove(pth)
+            try:
+                os.rmdir(FILE_DIR)
+            except OSError:
+                pass
+    return bad
+
+
+def loaded_search(ctx, post, r, rounds):
+    bad = []
+    for n in range(rounds):
+        case = gen_file_history(ctx, r, "s%d_%d" % (ctx.seed, n))
+        ctx.count("loaded:" + case["scenario"])
+        ctx.count("loaded:form:%s%s" % (FILE_FORMS[case["form"]][0], "".join(":" + k for k in sorted(FILE_FORMS[case["form"]][2]))))
+        ctx.count("loaded:loads", sum(1 for o in case["ops"] if o["op"] == "load"))
+        ctx.case(strip(case), nontrivial=True)
+        for what, detail in file_history_check(post, case)[:1]:
+            bad.append((what, dict(detail, case=strip(case))))
+        if len(bad) > 5:
+            break
+    return bad
+
+
+# --------------------------------------------------------------------------
 
 
 def regenerate(ctx):
@@ -852,6 +1039,7 @@ def run(ctx):
     ctx.log("oracle checked")
     mm = metamorphic(ctx, post, r, ctx.scale(400, 6000))
     mm += exhaustive_small(ctx, post)
+    mm += loaded_search(ctx, post, r, ctx.scale(300, 3000))
     ctx.log("metamorphic search done")
     for what, detail in mm[:5]:
         ctx.fail("property violated on the implementation (%s)" % what, detail, kind="impl")
@@ -876,6 +1064,10 @@ def replay(ctx, rp):
     if not case:
         print(json.dumps(rp, indent=1))
         return 0
+    if case.get("kind") == "loaded":
+        bad = file_history_check(post, case)
+        print("oracle (statistics loaded from files):", bad)
+        return 1 if bad else 0
     case = add_cond_tolerances(case)
     impl = impl_run(post, case)
     print("implementation:", impl)
